@@ -1,6 +1,7 @@
 \* export (thorough): server classes - all retryable statuses, two repetitions
 CONSTANTS
   ShardLists <- MCFewLists
+  Deployments <- MCDepAll
   Instants = {0, 1, 2, 3, 4}
   Scenes = {"submit"}
   ChainKinds = {"x509", "precert", "precertPreIssuer"}
